@@ -21,7 +21,7 @@ def section(text, *names):
         m = re.search(r'^##+ *(?:' + n + r')[^\n]*\n(?P<body>.*?)(?=^##+ |\Z)', text, re.S | re.M | re.I)
         if m: return ' '.join(m.group('body').split())[:900]
     return None
-for d in sorted(glob.glob('/verif/seeded/*/')):
+for d in sorted(x for x in glob.glob('/verif/seeded/*/') if not os.path.basename(x.rstrip('/')).startswith('_')):
     sid = os.path.basename(d.rstrip('/'))
     notes = open(d + 'notes.md').read() if os.path.exists(d + 'notes.md') else ''
     title = notes.splitlines()[0].lstrip('# ').strip() if notes else sid
